@@ -39,6 +39,7 @@ type Engine struct {
 	unwind       int
 	stepBudget   int
 	maxPaths     int
+	harnessBudget time.Duration
 	solverKind   string
 	timeoutMs    int
 	workers      int
@@ -509,6 +510,13 @@ func (e *Engine) explore(fn *ssa.Function) *Result {
 				if total >= e.maxPaths {
 					stop = true
 					res.PathCapHit = true
+				}
+				if e.harnessBudget > 0 && time.Since(t0) > e.harnessBudget && !stop {
+					// wall-clock budget of this harness used up: stop exploring it (reported as inconclusive, never as
+					// a pass), keep what was found and go on with the next harness
+					stop = true
+					res.PathCapHit = true
+					incon["time budget of the harness exhausted"] = true
 				}
 				if total%2000 == 0 && total > 0 {
 					fmt.Fprintf(os.Stderr, "  [%s] paths=%d trunc=%d infeas=%d work=%d viol-groups=%d elapsed=%.0fs\n", fn.Name(), res.Paths, res.Truncated, res.Infeasible, len(work), len(groups), time.Since(t0).Seconds())
